@@ -194,7 +194,7 @@ Decode(t, m, inp, pos, ctx, consts) ==
              r == DecodeFields(t, m, inp, pos, pos, 1, lay, consts,
                                [vals |-> << >>, names |-> << >>, sizes |-> << >>, unit |-> << >>, fl |-> {}])
          IN IF ~r.ok THEN r
-            ELSE LET endp == IF m.align THEN AlignUp(r.pos, AlignOf(t, m)) ELSE r.pos
+            ELSE LET endp == IF m.align THEN AlignRel(r.pos, pos, AlignOf(t, m)) ELSE r.pos
                  IN [r EXCEPT !.pos = endp, !.fl = r.fl \cup (IF endp > Len(inp) THEN {"lax"} ELSE {})]
 
 \* members of a union, each decoded at the union's start with the members before it as context
@@ -238,7 +238,7 @@ DecodeFields(t, m, inp, start, pos, i, lay, consts, st) ==
   ELSE LET f == t.fields[i]
            a == IF m.align THEN AlignOf(f.type, m) ELSE 1
            o == lay.offs[i]
-           here == IF o >= 0 THEN start + o ELSE IF o = Cont THEN pos ELSE AlignUp(pos, a)
+           here == IF o >= 0 THEN start + o ELSE IF o = Cont THEN pos ELSE AlignRel(pos, start, a)
        IN IF f.bits > 0
           THEN LET stg == Storage(f.type)
                    fresh == o # Cont
@@ -311,7 +311,7 @@ EncX(t, m, v, pos, lg) ==
          LET lay == CLayout(t, m)
              body == EncFields(t, m, v, pos, 1, lay, NoBytes, [bits |-> << >>, mask |-> << >>, size |-> 0], lg)
              endp == pos + Len(body.b)
-         IN IF m.align THEN Cat(body, Pad(AlignUp(endp, AlignOf(t, m)) - endp)) ELSE body
+         IN IF m.align THEN Cat(body, Pad(AlignRel(endp, pos, AlignOf(t, m)) - endp)) ELSE body
 
 \* a union's bytes: a bit is data if it is data in any member; coherent member values agree on shared bits
 EncUnion(t, m, v, pos, j, acc, lg) ==
@@ -353,7 +353,7 @@ EncFields(t, m, v, start, i, lay, out, bu, lg) ==
                    fresh == o # Cont
                    out1 == IF fresh THEN Cat(out, FlushUnit(bu, m)) ELSE out
                    cur == start + Len(out1.b)
-                   target == IF ~fresh THEN cur ELSE IF o >= 0 THEN start + o ELSE AlignUp(cur, a)
+                   target == IF ~fresh THEN cur ELSE IF o >= 0 THEN start + o ELSE AlignRel(cur, start, a)
                    out2 == Cat(out1, Pad(target - cur))
                    total == 8 * stg.size
                    unit0 == IF fresh THEN Zeros(total) ELSE bu.bits
@@ -367,7 +367,7 @@ EncFields(t, m, v, start, i, lay, out, bu, lg) ==
                IN EncFields(t, m, v, start, i + 1, lay, out2, [bits |-> unit1, mask |-> mask1, size |-> stg.size], lg)
           ELSE LET out1 == Cat(out, FlushUnit(bu, m))
                    cur == start + Len(out1.b)
-                   target == IF o >= 0 THEN start + o ELSE AlignUp(cur, a)
+                   target == IF o >= 0 THEN start + o ELSE AlignRel(cur, start, a)
                    out2 == Cat(out1, Pad(target - cur))
                IN EncFields(t, m, v, start, i + 1, lay, Cat(out2, EncX(f.type, m, val, target, lg)),
                             [bits |-> << >>, mask |-> << >>, size |-> 0], lg)
